@@ -90,16 +90,26 @@ def run_case(case, ctx):
     A = palette.block_matrix(ctx.rng(0), q0, q1, kind)
     if kind in ('real', 'dyadic'):
         A = A.real.copy()
+    # memory layout of the argument: C-contiguous, Fortran-ordered, or a non-contiguous view (keyed by the case, all three occur)
+    lay = (len(q0l) + 2 * len(q1l) + sum(q0l) + sum(q1l)) % 3
+    if lay == 1:
+        A = np.asfortranarray(A)
+    elif lay == 2:
+        big = np.zeros((2 * len(q0), 2 * len(q1)), dtype=A.dtype)
+        big[::2, ::2] = A
+        A = big[::2, ::2]
+    ctx.cls(('layout:C', 'layout:F', 'layout:strided_view')[lay])
     shared = bool(set(q0.tolist()) & set(q1.tolist()))
     ctx.cls('kind:' + kind)
     ctx.cls(f'q0:{palette.sortedness(q0)},q1:{palette.sortedness(q1)}' if shared else 'disjoint')
     ctx.nontrivial = shared and bool(np.any(A != 0))
+    strides0 = A.strides
     for tol in TOLS:
         A0 = A.copy()
         u, s, v, q = split_matrix_svd(A, q0, q1, tol)
         ctx.calls += 1
         ctx.obs(u, s, v)
-        ctx.check(np.array_equal(A, A0) and A.dtype == A0.dtype, 'input_not_modified')
+        ctx.check(np.array_equal(A, A0) and A.dtype == A0.dtype and A.strides == strides0, 'input_not_modified')
         nf = len(ctx.fails)
         judge_split(ctx, A0, u, s, v, q, q0, q1, tol)
         if len(ctx.fails) > nf:
